@@ -91,12 +91,21 @@ def runOpt (line : String) : Option String :=
     pure (String.ofList (tags.map fun t => if fileNameOK t then '1' else '0'))
   | _ => none
 
-/-- `w REPAIRED HEX(DIR) HEX(cwd) HEX(dir node),... HEX(key),... HEXINPUT`: `dshbak -d DIR` on a directory tree
+def parseInit (s : String) : Option (List (Str × List Str)) :=
+  if s = "." then some [] else
+  (s.splitOn ";").mapM fun b =>
+    match b.splitOn "=" with
+    | [a, c] => do let a ← unhx a; let c ← unhxs c; pure (a, c)
+    | _ => none
+
+/-- `w REPAIRED HEX(DIR) HEX(cwd) HEX(dir node),... HEX(key),... HEXINPUT INIT`: `dshbak -d DIR` on a directory tree;
+INIT = the files that exist beforehand, `HEX(node)=HEX(line),...;...` or `.`
 (`Dshbak/DirTree.lean`): nodes are `/`-joined component paths from a virtual root, the keys are `keys %lines` in the
 order the real perl yields them.  Answer: `ok|fatal` and the files afterwards, `HEX(node)=HEX(line),...;...` -/
 def runTree (line : String) : Option String :=
   match Driver.words line with
-  | ["w", rep, dir, cwd, dirs, ks, hxin] => do
+  | ["w", rep, dir, cwd, dirs, ks, hxin, init] => do
+    let before ← parseInit init
     let dir ← unhx dir
     let cwd ← unhx cwd
     let dirs ← unhxs dirs
@@ -104,7 +113,7 @@ def runTree (line : String) : Option String :=
     let files ← (hxin.splitOn "+").mapM (fun x => if x = "-" then some [] else unhx x)
     let node (s : Str) : Node := if s.isEmpty then [] else splitSlash s
     let m := processLines (rep.toNat?.getD 0 % 2 = 1) (readFiles files)
-    let r := runWrites (dirs.map node) (node cwd) (perFileWrites dir ks m) []
+    let r := runWrites (dirs.map node) (node cwd) (perFileWrites dir ks m) (before.map fun e => (node e.1, e.2))
     let showNode (n : Node) : String := hx (("/".toList).intercalate n)
     pure ((if r.2 then "ok " else "fatal ") ++ semis (r.1.map fun e => showNode e.1 ++ "=" ++ hxs e.2))
   | _ => none
